@@ -34,6 +34,7 @@ pub trait MX: ML<S> + Copy {
     fn col_slice(&self) -> Option<Vec<S>>;
     fn gl_t(&self) -> bool;
     fn show(&self) -> String;
+    fn show_spec(&self) -> String;
     fn dflt() -> Self;
     fn diag_trace(self) -> (Vec<S>, S);
     fn bdiag(x: S) -> Self;
@@ -61,6 +62,7 @@ macro_rules! mx { ($M:ident $O:ident $n:tt rows=$rows:tt ($($i:tt)+) new($p:iden
     fn col_slice(&self) -> Option<Vec<S>> { mx!(@cs $rows self) }
     fn gl_t(&self) -> bool { self.gl_should_transpose() }
     fn show(&self) -> String { format!("{}", self) }
+    fn show_spec(&self) -> String { format!("{:+9.3}", self) }
     fn dflt() -> Self { $M::default() }
     fn diag_trace(self) -> (Vec<S>, S) { (VL::ent(&self.diagonal()), self.trace()) }
     fn bdiag(x: S) -> Self { $M::broadcast_diagonal(x) }
@@ -142,6 +144,11 @@ fn views<R: MX, C: MX>() {
     let want = format!("({} )", a.iter().map(|row| row.iter().map(|x| format!(" {}", x)).collect::<String>()).collect::<Vec<_>>().join("\n "));
     goal("Display is layout-independent", lit(sr == sc));
     goal("Display format", lit(sr == want));
+    // ... also when formatting parameters are given: they reach every element in both layouts
+    let (pr, pc) = (r.show_spec(), c.show_spec());
+    let want_spec = format!("({} )", a.iter().map(|row| row.iter().map(|x| format!(" {:+9.3}", x)).collect::<String>()).collect::<Vec<_>>().join("\n "));
+    goal("Display with width/precision/sign is layout-independent", lit(pr == pc));
+    goal("Display forwards width/precision/sign to every element", lit(pr == want_spec));
     let idm: Abs = (0..n).map(|i| (0..n).map(|j| if i == j { one() } else { zero() }).collect()).collect();
     agree("Default = identity: rows", &R::dflt(), &idm);
     agree("Default = identity: cols", &C::dflt(), &idm);
